@@ -33,7 +33,7 @@ func (fr *frame) concInt(v value, what string) int64 {
 }
 
 // concLen concretises a length (makeslice); negative or huge values panic / cut.
-func (fr *frame) concLen(v value, panicMsg string) int {
+func (fr *frame) concLen(v value, t types.Type, panicMsg string) int {
 	s, ok := v.(sym)
 	if !ok {
 		n := asInt64(v)
@@ -47,13 +47,17 @@ func (fr *frame) concLen(v value, panicMsg string) int {
 	}
 	i := fr.i
 	w := s.t.width
-	// negative?
-	if i.decideBool(i.tt.App("bvslt", 0, s.t, i.tt.Const(w, 0)), "makeslice<0") {
+	// negative?  (only a signed operand can be)
+	if _, signed, _ := intInfo(t); signed && i.decideBool(i.tt.App("bvslt", 0, s.t, i.tt.Const(w, 0)), "makeslice<0") {
 		fr.tpanic(panicMsg)
 	}
 	// larger than the exploration bound?  recorded as a cut, not explored further
 	lim := int64(fr.i.m.allocBound)
-	if i.decideBool(i.tt.App("bvsgt", 0, s.t, i.tt.Const(w, uint64(lim))), "makeslice>bound") {
+	gt := "bvugt"
+	if _, signed, _ := intInfo(t); signed {
+		gt = "bvsgt"
+	}
+	if i.decideBool(i.tt.App(gt, 0, s.t, i.tt.Const(w, uint64(lim))), "makeslice>bound") {
 		i.observed = append(i.observed, "cut:large-allocation")
 		panic(pathEnd{kind: "cut", msg: fmt.Sprintf("symbolic allocation above bound %d", lim)})
 	}
@@ -431,6 +435,11 @@ func (fr *frame) conv(t_dst, t_src types.Type, x value) value {
 		}
 		panic(engineError(fmt.Sprintf("symbolic conversion %s -> %s", t_src, t_dst)))
 	}
+	if _, ok := x.(*rope); ok {
+		if db, ok := ut_dst.(*types.Basic); ok && db.Kind() == types.String {
+			return "<bytes of symbolic length>"
+		}
+	}
 	switch us := ut_src.(type) {
 	case *types.Slice:
 		if db, ok := ut_dst.(*types.Basic); ok && db.Kind() == types.String {
@@ -493,6 +502,12 @@ func callBuiltin(caller *frame, callpos token.Pos, fn *ssa.Builtin, args []value
 		if len(args) == 1 {
 			return args[0]
 		}
+		if _, ok := args[0].(*rope); ok {
+			return ropeAppend(args[0], args[1])
+		}
+		if _, ok := args[1].(*rope); ok {
+			return ropeAppend(args[0], args[1])
+		}
 		if isStrVal(args[1]) {
 			arg0 := args[0].([]value)
 			return append(arg0, strBytes(args[1])...)
@@ -541,6 +556,9 @@ func callBuiltin(caller *frame, callpos token.Pos, fn *ssa.Builtin, args []value
 		return nil
 
 	case "len":
+		if r, ok := args[0].(*rope); ok {
+			return mkval(types.Typ[types.Int], i.ropeLen(r))
+		}
 		switch x := args[0].(type) {
 		case string:
 			return len(x)
